@@ -152,12 +152,17 @@ ExpC05(ns) ==
   IN [k \in DOMAIN U |-> Item("unknown_type", "E", {ns[U[k]].sym}, {})]
 
 \* ---- C06
-UsedImport(ns, q) ==
-  \E i \in NamedTypes(ns) : Len(ns[i].rk) > 0 /\
-     \/ ns[i].rk[1] = "item" /\ ns[i].rk[2] # "fwd" /\ ns[i].rk[3] = q
-     \/ ns[i].rk[1] = "android" /\ BuiltinQN(ns[i].rk[2]) = q
+\* what a reference resolves to, for the purposes of "used": the scoping rule's answer where it leaves no choice
+\* (so a reference that the code classifies wrongly does not excuse a wrong import diagnostic), else the observed one
+ERK(ns, i, keys) ==
+  LET A == AllowedRK(ns[i].n, ns, keys) IN IF Cardinality(A) = 1 THEN CHOOSE r \in A : TRUE ELSE ns[i].rk
 
-UsedFwd(ns, name) == \E i \in NamedTypes(ns) : ns[i].rk = <<"item", "fwd", name>>
+UsedImport(ns, q, keys) ==
+  \E i \in NamedTypes(ns) : LET rk == ERK(ns, i, keys) IN Len(rk) > 0 /\
+     \/ rk[1] = "item" /\ rk[2] # "fwd" /\ rk[3] = q
+     \/ rk[1] = "android" /\ BuiltinQN(rk[2]) = q
+
+UsedFwd(ns, name, keys) == \E i \in NamedTypes(ns) : ERK(ns, i, keys) = <<"item", "fwd", name>>
 
 ExpImports(ns, keys) ==
   LET I == SortedSeq(OfClass(ns, "imp"))
@@ -170,14 +175,14 @@ ExpImports(ns, keys) ==
               IN <<Item("imp_dup", "E", NameOrFull(n), NameOrFull(f))>>
            ELSE IF q \notin DOMAIN keys /\ BuiltinOfQN(q) = "" THEN
               <<Item("imp_unres", "W", NameOrFull(n), {})>>
-           ELSE IF ~UsedImport(ns, q) THEN
+           ELSE IF ~UsedImport(ns, q, keys) THEN
               <<Item("imp_unused", "W", NameOrFull(n), {})>>
            ELSE <<>>
       RECURSIVE Cat_(_)
       Cat_(k) == IF k > Len(I) THEN <<>> ELSE One(k) \o Cat_(k+1)
   IN Cat_(1)
 
-ExpFwds(ns) ==
+ExpFwds(ns, keys) ==
   LET F == SortedSeq(OfClass(ns, "fwd"))
       ImpSimple == {ns[i].n : i \in OfClass(ns, "imp")}
       Conf(k) == ns[F[k]].n \in ImpSimple
@@ -189,13 +194,13 @@ ExpFwds(ns) ==
            ELSE IF Earlier # {} THEN
               LET f == ns[F[CHOOSE j \in Earlier : \A x \in Earlier : j <= x]]
               IN <<Item("fwd_repeat", "E", NameOrFull(n), NameOrFull(f))>>
-           ELSE IF n.a = "" /\ UsedFwd(ns, n.n) THEN <<Item("fwd_used", "W", NameOrFull(n), {})>>
+           ELSE IF n.a = "" /\ UsedFwd(ns, n.n, keys) THEN <<Item("fwd_used", "W", NameOrFull(n), {})>>
            ELSE <<Item("fwd_unused", "W", NameOrFull(n), {})>>
       RECURSIVE Cat_(_)
       Cat_(k) == IF k > Len(F) THEN <<>> ELSE One(k) \o Cat_(k+1)
   IN Cat_(1)
 
-ExpC06(ns, keys) == ExpImports(ns, keys) \o ExpFwds(ns)
+ExpC06(ns, keys) == ExpImports(ns, keys) \o ExpFwds(ns, keys)
 
 \* ---- C07
 DirReq(cat) ==
